@@ -405,13 +405,24 @@ func (w *c15World) kick(task int, mask int64, auth int64) {
 }
 
 func (w *c15World) misc(task int, variant, auth int64) {
-	switch c15Abs(variant) % 3 {
+	switch c15Abs(variant) % 8 {
 	case 0:
 		w.request(task, c15In{kind: kMisc}, http.MethodGet, "/", "", auth)
 	case 1:
 		w.request(task, c15In{kind: kMisc}, http.MethodGet, "/dump/streams", "", auth)
 	case 2:
 		w.request(task, c15In{kind: kMisc}, http.MethodGet, "/nothing-here", "", auth)
+	// the API's paths with the wrong method (probes, `curl -I`): none of them has an effect
+	case 3:
+		w.request(task, c15In{kind: kMisc}, http.MethodHead, "/traffic?clear=1", "", auth)
+	case 4:
+		w.request(task, c15In{kind: kMisc}, http.MethodHead, "/traffic", "", auth)
+	case 5:
+		w.request(task, c15In{kind: kMisc}, http.MethodPost, "/traffic?clear=1", "", auth)
+	case 6:
+		w.request(task, c15In{kind: kMisc}, http.MethodGet, "/kick", "", auth)
+	case 7:
+		w.request(task, c15In{kind: kMisc}, http.MethodHead, "/online", "", auth)
 	}
 }
 
@@ -532,7 +543,7 @@ func genC15a(r *hysim.Rand, tier string) *hysim.Script {
 		case 6:
 			sc.Ops = append(sc.Ops, hysim.Op{K: "onl", A: []int64{task, gap(), auth()}})
 		case 7:
-			sc.Ops = append(sc.Ops, hysim.Op{K: "misc", A: []int64{task, gap(), auth(), int64(r.Intn(3))}})
+			sc.Ops = append(sc.Ops, hysim.Op{K: "misc", A: []int64{task, gap(), auth(), int64(r.Intn(8))}})
 		}
 	}
 	return sc
